@@ -768,8 +768,9 @@ pub fn run(ctx: &'static Ctx) {
         for t in crate::tables::all() {
             let t: &dyn Table = t.as_ref();
             let c = t.ctors(0)[0];
-            let progs = crate::props::tseq::value_programs(t, quick, true);
-            per.push(json!({"table": t.name(), "programs": progs.len()}));
+            let mut nprogs = 0u64;
+            crate::props::tseq::value_programs(t, quick, true, &mut |progs| {
+            nprogs += progs.len() as u64;
             progs.par_iter().for_each(|(name, ops)| {
                 n.fetch_add(1, Ordering::Relaxed);
                 let mut img = vec![];
@@ -794,6 +795,8 @@ pub fn run(ctx: &'static Ctx) {
                     );
                 }
             });
+            });
+            per.push(json!({"table": t.name(), "programs": nprogs}));
         }
         ctx.st(n.load(Ordering::Relaxed));
         ctx.tr(n.load(Ordering::Relaxed));
